@@ -394,6 +394,43 @@ LawJar(jar, nests) ==
         names |-> [anyof |-> SetToSeq({AsMap(kept \cup NeededEncl(jar, nests) \cup X) : X \in SUBSET free})],
         classes |-> [k \in kept |-> LET c == CHOOSE c \in DOMAIN jar : MapClassT(R, c) = k IN LawClass(R, T, S, c, jar[c])]]
 
+(* ---- tables that are not plain ----                                                                       *)
+(* A listed class that is absent from the jar and is created as the enclosing class of a class counted as    *)
+(* present may itself be counted as present (the code: when its line follows the line that creates it) or    *)
+(* not.  The property leaves that open, but whichever way it is decided, it has to be decided ONE way for    *)
+(* the whole result: the result must be the nesting of the jar extended by SOME admissible set P of created  *)
+(* classes (names, references, InnerClasses / EnclosingMethod rows and the enclosing classes that must exist *)
+(* all follow from P).  For a plain table the only admissible P is {} and this is JarLaw.                    *)
+CountedPresent(jar, nests) ==
+    {P \in SUBSET (Keys(nests) \ DOMAIN jar) :
+        \A c \in P : \E d \in Keys(nests) \cap (DOMAIN jar \cup P) : ByClass(nests)[d].encl = c}
+WithCreated(jar, P) == [c \in DOMAIN jar \cup P |-> IF c \in DOMAIN jar THEN jar[c] ELSE NewClassOp(c)]
+JarPreAlt(jar, nests) ==
+    /\ WF(nests) /\ ~Plain(jar, nests) /\ DOMAIN jar # {}
+    /\ \A P \in CountedPresent(jar, nests) : NoClash(WithCreated(jar, P), nests)
+JarLawP(jar, nests, P, out, exact) ==
+    LET jp == WithCreated(jar, P)
+        S == Renamed(jp, nests)
+        R == NewTable(nests, S)
+        T == ByClass(nests)
+    IN /\ NamesLaw(jp, nests, out.names)
+       /\ \A c \in DOMAIN jar : ClassLaw(R, T, S, c, jar[c], out.classes[MapClassT(R, c)], exact)
+       /\ \A c \in out.names \ {MapClassT(R, c) : c \in DOMAIN jar} :               \* a created class is that class
+             \E i \in 1..Len(out.classes[c].rows) : out.classes[c].rows[i] = <<"this", c, "", "">>
+JarLawAlt(jar, nests, out, exact) == \E P \in CountedPresent(jar, nests) : JarLawP(jar, nests, P, out, exact)
+LawJarP(jar, nests, P) ==
+    LET jp == WithCreated(jar, P)
+        S == Renamed(jp, nests)
+        R == NewTable(nests, S)
+        T == ByClass(nests)
+        kept == {MapClassT(R, c) : c \in DOMAIN jp}
+        free == MayCreate(jp, nests) \ NeededEncl(jp, nests)
+    IN [st |-> "ok",
+        names |-> [anyof |-> SetToSeq({AsMap(kept \cup NeededEncl(jp, nests) \cup X) : X \in SUBSET free})],
+        classes |-> [k \in {MapClassT(R, c) : c \in DOMAIN jar} |->
+                        LET c == CHOOSE c \in DOMAIN jar : MapClassT(R, c) = k IN LawClass(R, T, S, c, jar[c])]]
+LawJarAlt(jar, nests) == [anyof |-> SetToSeq({LawJarP(jar, nests, P) : P \in CountedPresent(jar, nests)})]
+
 (* A jar as the bounded model and the generators describe it to the harness ("recipe"): class name ->      *)
 (* [super, itfs, fields, methods (<<name, desc>>), code (reference rows of instructions, placed in a       *)
 (* method refs()V), ic, em]; RecipeJar gives its reference rows (as cfkit::refs reports them, up to order) *)
